@@ -5,6 +5,7 @@
 From Coq Require Import Permutation.
 From SPV Require Import Base.Str Model.Namespace Model.LeafSpec Model.ArgparseM Model.ArgparseMSpec
      Proofs.ArgparseMProofs Proofs.ArgparsePipeline.
+From SPV Require Import Model.ArgparsePos Model.ArgparsePosSpec Proofs.ArgparsePosProofs.
 
 (* I1: empty argv yields the defaults, string defaults passed through the converter (not the choices);
    a missing required option is an error.  spec_empty is written per action, without the model's loops. *)
@@ -285,3 +286,95 @@ Proof.
 Qed.
 Print Assumptions ARGP_leaf_pipeline_nonvacuous.
 Print Assumptions ARGP_nonvacuous.
+
+(* ====================================================================== *)
+(* POSITIONALS (Model/ArgparsePos.v: parse_knownP / parse_argsP)           *)
+(* ====================================================================== *)
+(* without positionals the extended model IS the model above: every theorem of this file holds for parse_argsP under
+   the hypothesis no_positionals acts = true (composition, per_field, permutation_invariant, the pipeline theorems
+   keep exactly that hypothesis; the statement that covers positionals is ARGP_positionals_in_order) *)
+Theorem ARGP_no_positionals_same : forall V K (cvt : K -> string -> res V) veqb ab (acts : list (act V K)) argv,
+  no_positionals acts = true -> parse_argsP cvt veqb ab acts argv = parse_args cvt veqb ab acts argv.
+Proof. exact no_positionals_same. Qed.
+Print Assumptions ARGP_no_positionals_same.
+Theorem ARGP_no_positionals_same_known : forall V K (cvt : K -> string -> res V) veqb ab (acts : list (act V K)) argv,
+  no_positionals acts = true -> parse_knownP cvt veqb ab acts argv = parse_known cvt veqb ab acts argv.
+Proof. exact no_positionals_same_known. Qed.
+Print Assumptions ARGP_no_positionals_same_known.
+
+(* POSITIONALS IN ORDER.  acts: any mix of optionals and positionals with pairwise distinct destinations, every positional
+   of fixed arity (nargs None or N >= 1: fixed_positionals).  segs: option groups (group_ok, as in ARGP_composition) and
+   runs of blocks of argument-class tokens; segs_ok: the blocks, read left to right, have exactly the arities of the
+   positionals in DECLARATION order and every positional gets one; a run stands at the start or right after a group
+   whose option takes a fixed number of tokens (after a greedy ?/*/+ option the run would be eaten by the option), never
+   after another run.  Conclusion: parse_args answers the per-field specification of the command line read as groups in
+   which the i-th block belongs to the i-th positional (as_groups): each field is decided by its own last (pseudo-)group
+   or its default; errors of segments first, in argv order. *)
+Theorem ARGP_positionals_in_order : forall V K (cvt : K -> string -> res V) veqb ab (acts : list (act V K)) segs,
+  NoDup (map a_dest acts) -> opts_dashed acts = true -> fixed_positionals acts = true ->
+  segs_ok ab acts segs = true ->
+  parse_argsP cvt veqb ab acts (flatten_segs segs) = spec_groups cvt veqb acts (as_groups (positionals acts) segs).
+Proof. exact positionals_in_order. Qed.
+Print Assumptions ARGP_positionals_in_order.
+
+(* read field by field (usable for a positional j: its last pseudo-group is its block) *)
+Theorem ARGP_spec_groups_lookup : forall V K (cvt : K -> string -> res V) veqb (acts : list (act V K)) gs l j a,
+  NoDup (map a_dest acts) -> spec_groups cvt veqb acts gs = Ok l -> nth_error acts j = Some a ->
+  exists v, lookup (a_dest a) l = Some v
+            /\ match last_group j gs with
+               | Some g => values_of cvt veqb a (g_toks g) = Ok v
+               | None => a_req a = false /\ default_value cvt a = Ok v
+               end.
+Proof. exact spec_groups_lookup. Qed.
+Print Assumptions ARGP_spec_groups_lookup.
+
+(* too few blocks: some positional (required, as argparse derives for nargs None / N) did not get its block *)
+Theorem ARGP_positionals_too_few : forall V K (cvt : K -> string -> res V) veqb ab (acts : list (act V K)) segs p rest,
+  NoDup (map a_dest acts) -> opts_dashed acts = true -> fixed_positionals acts = true ->
+  positionals_required acts = true ->
+  segs_rest ab acts (positionals acts) PStart segs = Some (p :: rest) ->
+  exists e, parse_argsP cvt veqb ab acts (flatten_segs segs) = Err e.
+Proof. exact positionals_too_few. Qed.
+Print Assumptions ARGP_positionals_too_few.
+Theorem ARGP_positionals_too_few_exit2 : forall V K (cvt : K -> string -> res V) veqb ab (acts : list (act V K)) segs p rest,
+  NoDup (map a_dest acts) -> opts_dashed acts = true -> fixed_positionals acts = true ->
+  positionals_required acts = true -> conv_exit2_only cvt acts ->
+  segs_rest ab acts (positionals acts) PStart segs = Some (p :: rest) ->
+  parse_argsP cvt veqb ab acts (flatten_segs segs) = Err (Exit 2).
+Proof. exact positionals_too_few_exit2. Qed.
+Print Assumptions ARGP_positionals_too_few_exit2.
+
+(* non-vacuity: two positionals (one token, two tokens) declared around two options; blocks at the start, after a
+   fixed-arity group and at the end; the values land in declaration order *)
+Definition px_acts : list iact :=
+  [ mkact [] "src" NaOne CStr None SNone true;
+    mkact ["--lr"] "lr" NaOne CInt None (SRaw "3") false;
+    mkact [] "size" (NaNum 2) CInt None SNone true;
+    mkact ["--names"] "names" NaStar CStr None (SMany []) false;
+    mkact [] "dst" NaOne CStr None SNone true ].
+Definition px_segs : list seg :=
+  [ SR [["a.txt"]]; SG (mkgroup 1 "--lr" ["5"]); SR [["-2"; "7"]]; SG (mkgroup 3 "--names" ["x"; "y"]);
+    SG (mkgroup 1 "--lr" ["6"]); SR [["b.txt"]] ].
+Example ARGP_positionals_nonvacuous :
+  flatten_segs px_segs = ["a.txt"; "--lr"; "5"; "-2"; "7"; "--names"; "x"; "y"; "--lr"; "6"; "b.txt"]
+  /\ positionals px_acts = [0; 2; 4]
+  /\ NoDup (map a_dest px_acts) /\ opts_dashed px_acts = true /\ fixed_positionals px_acts = true
+  /\ positionals_required px_acts = true
+  /\ segs_ok true px_acts px_segs = true
+  /\ as_groups (positionals px_acts) px_segs =
+       [mkgroup 0 "" ["a.txt"]; mkgroup 1 "--lr" ["5"]; mkgroup 2 "" ["-2"; "7"]; mkgroup 3 "--names" ["x"; "y"];
+        mkgroup 1 "--lr" ["6"]; mkgroup 4 "" ["b.txt"]]
+  /\ iparse_argsP true px_acts (flatten_segs px_segs) =
+       Ok [("src", SOne (VS "a.txt")); ("lr", SOne (VI 6)); ("size", SMany [VI (-2); VI 7]); ("names", SMany [VS "x"; VS "y"]);
+           ("dst", SOne (VS "b.txt"))]
+  /\ recogniseP true px_acts (flatten_segs px_segs) = Some px_segs
+  (* too few *)
+  /\ segs_rest true px_acts (positionals px_acts) PStart [SR [["a.txt"]; ["1"; "2"]]; SG (mkgroup 1 "--lr" ["5"])] = Some [4]
+  /\ iparse_argsP true px_acts ["a.txt"; "1"; "2"; "--lr"; "5"] = Err (Exit 2)
+  (* too many: a leftover *)
+  /\ iparse_argsP true px_acts ["a.txt"; "1"; "2"; "b.txt"; "extra"] = Err (Exit 2).
+Proof.
+  repeat split; try (vm_compute; reflexivity).
+  apply str_nodupb_NoDup. vm_compute. reflexivity.
+Qed.
+Print Assumptions ARGP_positionals_nonvacuous.
